@@ -10,6 +10,43 @@ open Chewing Chewing.C04 Chewing.C05
 
 variable {D L : Type} (env : Env D L) (G : D → Prop)
 
+/-- how the range of a phrase selector hangs on the position `orig` it was opened at (`init` /
+    `init_single_word`; `next` and the four `jump_to_*_selection_point` keep it): `orig` is a position of
+    the buffer, the range starts there when choosing forward and ends right after it when choosing
+    rearward — so `jump_to_first_selection_point` (re-`init` from `orig`) and `prev_selection_point` (grow
+    up to the break point around `orig`) stay on the run of syllables the range lies in -/
+structure Anchor (p : PhraseSel) : Prop where
+  orig_lt : p.orig < p.com.symbols.length
+  fw : p.forward = true → p.begin_ = p.orig
+  rw : p.forward = false → p.end_ = p.orig + 1
+
+/-- what every range move of an open selector (`next`, the jumps) keeps: direction and origin, and the
+    anchored end of the range -/
+structure Keep (s s' : PhraseSel) : Prop where
+  com : s'.com = s.com
+  forward : s'.forward = s.forward
+  orig : s'.orig = s.orig
+  fwb : s.forward = true → s'.begin_ = s.begin_
+  rwe : s.forward = false → s'.end_ = s.end_
+
+theorem Keep.refl (s : PhraseSel) : Keep s s := ⟨rfl, rfl, rfl, fun _ => rfl, fun _ => rfl⟩
+
+theorem Keep.setEnd {s : PhraseSel} (hf : s.forward = true) (x : Nat) : Keep s { s with end_ := x } :=
+  ⟨rfl, rfl, rfl, (fun _ => rfl), (fun hh => by rw [hf] at hh; cases hh)⟩
+
+theorem Keep.setBegin {s : PhraseSel} (hf : ¬ s.forward = true) (x : Nat) : Keep s { s with begin_ := x } :=
+  ⟨rfl, rfl, rfl, (fun hh => absurd hh hf), (fun _ => rfl)⟩
+
+theorem Keep.trans {a b c : PhraseSel} (h1 : Keep a b) (h2 : Keep b c) : Keep a c :=
+  ⟨h2.com.trans h1.com, h2.forward.trans h1.forward, h2.orig.trans h1.orig,
+   (fun hh => (h2.fwb (h1.forward.trans hh)).trans (h1.fwb hh)),
+   (fun hh => (h2.rwe (h1.forward.trans hh)).trans (h1.rwe hh))⟩
+
+theorem Anchor.keep {s s' : PhraseSel} (h : Anchor s) (hk : Keep s s') : Anchor s' :=
+  ⟨by rw [hk.orig, hk.com]; exact h.orig_lt,
+   (fun hh => by rw [hk.fwb (hk.forward ▸ hh), hk.orig]; exact h.fw (hk.forward ▸ hh)),
+   (fun hh => by rw [hk.rwe (hk.forward ▸ hh), hk.orig]; exact h.rw (hk.forward ▸ hh))⟩
+
 /-- invariant of an open phrase selector -/
 structure PhraseOK (sh : Shared D L) (p : PhraseSel) : Prop where
   com : p.com = sh.com.inner
@@ -18,6 +55,8 @@ structure PhraseOK (sh : Shared D L) (p : PhraseSel) : Prop where
   syl : AllSyl p.com p.begin_ p.end_
   /-- the selector's own lookup strategy is an active strategy: every buffered syllable has a word under it -/
   word : ∀ c, Sym.syl c ∈ p.com.symbols → env.hasPhrase sh.dict [c] p.strategy = true
+  /-- the range is anchored at the position the list was opened at -/
+  anchor : Anchor p
 
 /-- invariant of an open candidate list -/
 structure SelInv (sh : Shared D L) (s : Selecting) : Prop where
@@ -37,7 +76,7 @@ variable {env G}
 
 theorem PhraseOK.congr {sh sh' : Shared D L} {p : PhraseSel} (h : PhraseOK env sh p) (hc : sh'.com.inner = sh.com.inner)
     (hm : ∀ c s, env.hasPhrase sh.dict [c] s = true → env.hasPhrase sh'.dict [c] s = true) : PhraseOK env sh' p :=
-  ⟨h.com.trans hc.symm, h.lt, h.le, h.syl, fun c hcm => hm _ _ (h.word c hcm)⟩
+  ⟨h.com.trans hc.symm, h.lt, h.le, h.syl, fun c hcm => hm _ _ (h.word c hcm), h.anchor⟩
 
 theorem StInv.congr {sh sh' : Shared D L} {st : St} (h : StInv env sh st) (hc : sh'.com.inner = sh.com.inner)
     (hcur : sh'.com.cursor = sh.com.cursor)
@@ -193,6 +232,9 @@ structure SameSel (s s' : PhraseSel) : Prop where
   b1 : s.begin_ ≤ s'.begin_
   b2 : s'.begin_ < s'.end_
   b3 : s'.end_ ≤ s.end_
+  /-- choosing forward the loop only moves the end, choosing rearward only the beginning -/
+  fwb : s.forward = true → s'.begin_ = s.begin_
+  rwe : s.forward = false → s'.end_ = s.end_
 
 theorem initLoop_ok (d : D) : ∀ (fuel : Nat) (s : PhraseSel), s.begin_ < s.end_ → s.end_ ≤ s.com.symbols.length →
     AllSyl s.com s.begin_ s.end_ → (∀ c, Sym.syl c ∈ s.com.symbols → env.hasPhrase d [c] s.strategy = true) →
@@ -206,7 +248,7 @@ theorem initLoop_ok (d : D) : ∀ (fuel : Nat) (s : PhraseSel), s.begin_ < s.end
     rw [if_neg (by omega), if_neg (by simp only [Composition.len]; omega), if_neg (by simp only [beq_iff_eq]; omega)]
     rw [rangeHasPhrase_ok s d (by omega) h2]
     cases hfalse : env.hasPhrase d (sylPrefix ((s.com.symbols.drop s.begin_).take (s.end_ - s.begin_))) s.strategy with
-    | true => exact .ok ⟨rfl, rfl, rfl, rfl, Nat.le_refl _, h1, Nat.le_refl _⟩
+    | true => exact .ok ⟨rfl, rfl, rfl, rfl, Nat.le_refl _, h1, Nat.le_refl _, fun _ => rfl, fun _ => rfl⟩
     | false =>
       dsimp only
       -- the range is longer than one syllable, otherwise it would have had a phrase
@@ -227,14 +269,18 @@ theorem initLoop_ok (d : D) : ∀ (fuel : Nat) (s : PhraseSel), s.begin_ < s.end
             injection this with this
             rw [this] at hfalse; cases hfalse
       split
-      · obtain ⟨s', hq, hs⟩ := ih { s with end_ := s.end_ - 1 } (by show s.begin_ < s.end_ - 1; omega)
+      · next hfw =>
+        obtain ⟨s', hq, hs⟩ := ih { s with end_ := s.end_ - 1 } (by show s.begin_ < s.end_ - 1; omega)
           (by show s.end_ - 1 ≤ s.com.symbols.length; omega) (fun j a b => h3 j a (by show j < s.end_; have : j < s.end_ - 1 := b; omega))
           h4 (by show s.end_ - 1 - s.begin_ ≤ fuel; omega)
-        exact ⟨s', hq, ⟨hs.com, hs.strategy, hs.forward, hs.orig, hs.b1, hs.b2, by have := hs.b3; simp only at this; omega⟩⟩
-      · obtain ⟨s', hq, hs⟩ := ih { s with begin_ := s.begin_ + 1 } (by show s.begin_ + 1 < s.end_; omega)
+        exact ⟨s', hq, ⟨hs.com, hs.strategy, hs.forward, hs.orig, hs.b1, hs.b2, by have := hs.b3; simp only at this; omega,
+          hs.fwb, (fun hh => by rw [hh] at hfw; cases hfw)⟩⟩
+      · next hfw =>
+        obtain ⟨s', hq, hs⟩ := ih { s with begin_ := s.begin_ + 1 } (by show s.begin_ + 1 < s.end_; omega)
           h2 (fun j a b => h3 j (by have : s.begin_ + 1 ≤ j := a; omega) b)
           h4 (by show s.end_ - (s.begin_ + 1) ≤ fuel; omega)
-        exact ⟨s', hq, ⟨hs.com, hs.strategy, hs.forward, hs.orig, by have := hs.b1; simp only at this; omega, hs.b2, hs.b3⟩⟩
+        exact ⟨s', hq, ⟨hs.com, hs.strategy, hs.forward, hs.orig, by have := hs.b1; simp only at this; omega, hs.b2, hs.b3,
+          fun hh => absurd hh hfw, hs.rwe⟩⟩
 
 /-- **`PhraseSelector::init`** at a syllable inside the buffer: no panic, the loop terminates, and the
     selector covers a non-empty run of syllables inside the buffer -/
@@ -242,12 +288,13 @@ theorem init_ok (forward : Bool) (strategy : Strategy) (com : Composition) (curs
     (hlt : cursor < com.symbols.length) (hsyl : ∃ k, com.symbols[cursor]? = some (Sym.syl k))
     (hw : ∀ c, Sym.syl c ∈ com.symbols → env.hasPhrase d [c] strategy = true) :
     OkAnd (fun p => p.com = com ∧ p.strategy = strategy ∧ p.begin_ < p.end_ ∧ p.end_ ≤ com.symbols.length ∧
-        AllSyl com p.begin_ p.end_)
+        AllSyl com p.begin_ p.end_ ∧ Anchor p ∧ p.forward = forward ∧ p.orig = cursor)
       (PhraseSel.init env forward strategy com cursor d) := by
   unfold PhraseSel.init
   dsimp only
   split
-  · rw [if_neg (by simp only [Composition.len, beq_iff_eq]; omega)]
+  · next hfw =>
+    rw [if_neg (by simp only [Composition.len, beq_iff_eq]; omega)]
     rw [if_neg (by simp only [Composition.len, beq_iff_eq]; omega)]
     let s0 : PhraseSel := { begin_ := 0, end_ := com.len, forward := forward, orig := cursor, strategy := strategy, com := com }
     obtain ⟨n1, n2, n3, n4⟩ := nbp_spec s0 (c := cursor) (Nat.le_of_lt hlt)
@@ -255,10 +302,15 @@ theorem init_ok (forward : Bool) (strategy : Strategy) (com : Composition) (curs
     obtain ⟨p, hq, hs⟩ := initLoop_ok (env := env) d (com.len + 2)
       { s0 with begin_ := cursor, end_ := s0.nextBreakPoint cursor } n4 n2 n3 hw
       (by show s0.nextBreakPoint cursor - cursor ≤ com.len + 2; simp only [Composition.len]; have : s0.nextBreakPoint cursor ≤ com.symbols.length := n2; omega)
-    refine ⟨p, hq, hs.com, hs.strategy, hs.b2, Nat.le_trans hs.b3 n2, ?_⟩
-    intro j a b
-    exact n3 j (Nat.le_trans hs.b1 a) (Nat.lt_of_lt_of_le b hs.b3)
-  · let s0 : PhraseSel := { begin_ := 0, end_ := com.len, forward := forward, orig := cursor, strategy := strategy, com := com }
+    have hpf : p.forward = forward := hs.forward
+    have hpo : p.orig = cursor := hs.orig
+    have hpb : p.begin_ = cursor := hs.fwb hfw
+    refine ⟨p, hq, hs.com, hs.strategy, hs.b2, Nat.le_trans hs.b3 n2, ?_, ?_, hpf, hpo⟩
+    · intro j a b
+      exact n3 j (Nat.le_trans hs.b1 a) (Nat.lt_of_lt_of_le b hs.b3)
+    · exact ⟨(by rw [hpo, hs.com]; exact hlt), (fun _ => by rw [hpb, hpo]), (fun hh => by rw [hpf, hfw] at hh; cases hh)⟩
+  · next hfw =>
+    let s0 : PhraseSel := { begin_ := 0, end_ := com.len, forward := forward, orig := cursor, strategy := strategy, com := com }
     obtain ⟨a1, a2⟩ := apbp_spec s0 (c := cursor) (Nat.le_of_lt hlt)
     have hmin : min (cursor + 1) com.len = cursor + 1 := by simp only [Composition.len]; omega
     rw [hmin]
@@ -272,22 +324,28 @@ theorem init_ok (forward : Bool) (strategy : Strategy) (com : Composition) (curs
       { s0 with end_ := cursor + 1, begin_ := s0.afterPreviousBreakPoint cursor }
       (by show s0.afterPreviousBreakPoint cursor < cursor + 1; omega) (by show cursor + 1 ≤ com.symbols.length; omega) hall hw
       (by show cursor + 1 - s0.afterPreviousBreakPoint cursor ≤ com.len + 2; simp only [Composition.len]; omega)
-    refine ⟨p, hq, hs.com, hs.strategy, hs.b2, ?_, ?_⟩
+    have hpf : p.forward = forward := hs.forward
+    have hpo : p.orig = cursor := hs.orig
+    have hfw' : forward = false := by cases forward <;> simp_all
+    have hpe : p.end_ = cursor + 1 := hs.rwe hfw'
+    refine ⟨p, hq, hs.com, hs.strategy, hs.b2, ?_, ?_, ?_, hpf, hpo⟩
     · have := hs.b3; simp only at this; omega
     · intro j a b
       exact hall j (Nat.le_trans hs.b1 a) (Nat.lt_of_lt_of_le b hs.b3)
+    · exact ⟨(by rw [hpo, hs.com]; exact hlt), (fun hh => by rw [hpf, hfw'] at hh; cases hh), (fun _ => by rw [hpe, hpo])⟩
 
 /-- **`init_single_word`** right after a syllable was inserted before the cursor -/
 theorem initSingleWord_ok (strategy : Strategy) (com : Composition) (cursor : Nat)
     (h0 : 0 < cursor) (hle : cursor ≤ com.symbols.length) (hsyl : ∃ k, com.symbols[cursor - 1]? = some (Sym.syl k)) :
     OkAnd (fun p => p.com = com ∧ p.strategy = strategy ∧ p.begin_ < p.end_ ∧ p.end_ ≤ com.symbols.length ∧
-        AllSyl com p.begin_ p.end_)
+        AllSyl com p.begin_ p.end_ ∧ Anchor p)
       (PhraseSel.initSingleWord strategy com cursor) := by
   unfold PhraseSel.initSingleWord
   have hmin : min cursor com.len = cursor := by simp only [Composition.len]; omega
   dsimp only
   rw [hmin, if_neg (by simp only [beq_iff_eq]; omega)]
-  refine .ok ⟨rfl, rfl, by show cursor - 1 < cursor; omega, hle, ?_⟩
+  refine .ok ⟨rfl, rfl, by show cursor - 1 < cursor; omega, hle, ?_,
+    ⟨(by show cursor - 1 < com.symbols.length; omega), (fun hh => by cases hh), (fun _ => by show cursor = cursor - 1 + 1; omega)⟩⟩
   intro j a b
   have : j = cursor - 1 := by
     have a' : cursor - 1 ≤ j := a
